@@ -20,14 +20,17 @@ class Group:
     def __init__(self, name, unit=None, harness=None, entry=None, enforce=None, replace=(), loop_contracts=False, unwind=None,
                  backend='sat', timeout=600, kind='unbounded', bound=None, clause='', defines=(), checks=None,
                  expect='pass', replay=None, tier='quick', extra=(), canary=True, unwindset=(), object_bits=None,
-                 inputs=(), nondet_static=False, no_standard_checks=False, unwind_by=None, unwind_claims=(), skeleton=False):
+                 inputs=(), nondet_static=False, no_standard_checks=False, unwind_by=None, unwind_claims=(), skeleton=False, stub=()):
         self.name, self.unit, self.harness = name, unit, harness
         self.entry = entry or 'harness'
         self.enforce, self.replace = enforce, list(replace)
         self.loop_contracts, self.unwind = loop_contracts, unwind
         self.backend, self.timeout = backend, timeout
         self.kind, self.bound, self.clause = kind, bound, clause
-        self.defines = list(defines)
+        # functions whose calls are replaced by the contract stub the lowering generates (assert requires / havoc assigns /
+        # assume ensures) instead of goto-instrument's --replace-call-with-contract
+        self.stub = list(stub)
+        self.defines = list(defines) + [f'CXX_STUB_{f}' for f in self.stub]
         self.checks = CHECKS if checks is None else checks
         self.expect, self.replay, self.tier = expect, replay, tier
         self.extra = list(extra)
